@@ -396,10 +396,26 @@ impl<'a> FamVisitor for RVisit<'a> {
         }
         let mut i = 0usize;
         let mut last_len: Option<usize> = None;
-        loop {
+        let mut seen_max_final = 512 * 1024usize;
+        let cap_check = |buf: &Vec<u8>, seen_max: usize, when: &str| -> Result<(), Violation> {
+            // the frame buffer is the reader's own allocation: it may never exceed the configured maximum
+            // (or the capacity of the buffer the caller handed in)
+            if buf.capacity() > seen_max.max(init_cap) {
+                fail!(
+                    "r_buffer_cap",
+                    "{when}: the reader's frame buffer has capacity {} although max_len is {seen_max} (initial capacity {init_cap})",
+                    buf.capacity()
+                );
+            }
+            Ok(())
+        };
+        'drive: loop {
             if s.r_rewrap_at == Some(i as u32) {
                 // every completed read call leaves the reader at a frame boundary
                 let (src, buf) = reader.into_parts();
+                if i > 0 {
+                    cap_check(&buf, seen_max_final, "into_parts")?;
+                }
                 reader = Reader::with_buffer(src, buf);
                 if s.r_max_len_mode != 0 && i > knob_at {
                     reader.set_max_len(knob_len as u32);
@@ -416,7 +432,8 @@ impl<'a> FamVisitor for RVisit<'a> {
             let max_len = max_len_for(i);
             // the buffer may have grown under an earlier, larger max_len: bound by the largest limit seen so far
             let seen_max = if knob_at > 0 && s.r_max_len_mode != 0 { (512 * 1024usize).max(knob_len) } else { max_len };
-            let base_bound = (2 * seen_max).max(2 * init_cap).max(64);
+            seen_max_final = seen_max;
+            let base_bound = seen_max.max(init_cap).max(64);
             let at = format!("read #{i}");
             obs.borrow_mut().event(ev::ISSUE, i as u64);
             let calls_before = core.borrow().calls;
@@ -442,7 +459,7 @@ impl<'a> FamVisitor for RVisit<'a> {
             // fatal source error: must surface as that error
             if let Some(k) = c.fatal_served {
                 match &r {
-                    RRes::Io(e) if *e == k.io() => return Ok(()),
+                    RRes::Io(e) if *e == k.io() => break 'drive,
                     other => fail!("r_fatal_passthrough", "{at}: source failed with {k:?} but read returned {}", clip(&format!("{other:?}"))),
                 }
             }
@@ -451,7 +468,7 @@ impl<'a> FamVisitor for RVisit<'a> {
                 match r {
                     RRes::CleanEnd => {
                         obs.borrow_mut().probe(pb::clean_end_repeated);
-                        return Ok(());
+                        break 'drive;
                     }
                     other => fail!("r_clean_end", "{at}: after a clean end a further read returned {}", clip(&format!("{other:?}"))),
                 }
@@ -486,8 +503,8 @@ impl<'a> FamVisitor for RVisit<'a> {
                     last_len = Some(payload_lens[i]);
                 }
                 (RRes::CleanEnd, Exp::CleanEnd) => {}
-                (RRes::Io(k), Exp::Eof) if *k == std::io::ErrorKind::UnexpectedEof => return Ok(()),
-                (RRes::InvalidLen, Exp::InvalidLen) => return Ok(()),
+                (RRes::Io(k), Exp::Eof) if *k == std::io::ErrorKind::UnexpectedEof => break 'drive,
+                (RRes::InvalidLen, Exp::InvalidLen) => break 'drive,
                 // ---- mismatches, attributed to the clause of the statement they break
                 (RRes::Io(k), _) if *k == std::io::ErrorKind::Interrupted => fail!("r_eintr_transparent", "{at}: Interrupted surfaced to the caller"),
                 (got, Exp::Eof) => fail!("r_truncation", "{at}: the stream ends inside frame {i} but read returned {}", clip(&format!("{got:?}"))),
@@ -511,6 +528,8 @@ impl<'a> FamVisitor for RVisit<'a> {
             drop(c);
             i += 1;
         }
+        let (_src, buf) = reader.into_parts();
+        cap_check(&buf, seen_max_final, "end of run")
     }
 }
 
@@ -975,7 +994,7 @@ impl Property for P14 {
 
     fn assumptions() -> Vec<&'static str> {
         vec![
-            "\"never allocates more than its configured maximum for a frame\" is read as: no single allocation request inside read() exceeds max(2*max_len, 2*capacity of the buffer handed to with_buffer, 64) plus a decode allowance of 64 x payload length + 4 KiB; Vec growth can reach 2 x max_len on the unchanged tree (DESIGN.md §3 C14 a)",
+            "\"never allocates more than its configured maximum for a frame\" is checked literally in two ways: the capacity of the reader's frame buffer (seen through into_parts at the end of a run and at every re-wrap) never exceeds max(largest max_len in effect so far, capacity of the buffer handed to with_buffer), and no single allocation request inside read() exceeds that bound plus a decode allowance of 64 x payload length + 4 KiB for the value being decoded",
             "after the first InvalidLen, UnexpectedEof or fatal error the reader phase ends (the blocking reader is desynchronised by design; the property is silent about afterwards)",
             "only Interrupted is injected as a retryable error into blocking calls; other kinds are injected as fatal errors in a separate class",
             "payload codec is the library's own (reference = to_vec / direct decode of the payload slice)",
